@@ -225,7 +225,7 @@ class FCtx(symx.Ctx):
             s.add(e)
         text = s.to_smt2().replace('(check-sat)', '')
         names = [n for n, v in self.inputs.items()] + list(self.aux)
-        verdict, vals, who, secs = smt.portfolio(text, names=names, timeout=self.slow_s, logic='QF_FP')
+        verdict, vals, who, secs = smt.portfolio(text, names=names, timeout=self.slow_s, logic='QF_BVFP' if any(z3.is_bv(v) for v in self.inputs.values()) else 'QF_FP')
         self.qtime += secs
         FCtx.log.append(dict(verdict=verdict, solver=who, seconds=secs))
         if verdict == 'unsat':
@@ -233,6 +233,14 @@ class FCtx(symx.Ctx):
         if verdict == 'sat':
             pairs = []
             for n, v in list(self.inputs.items()) + list(self.aux.items()):
+                if n in vals and z3.is_bv(v):
+                    tok = vals[n]
+                    try:
+                        num = int(tok[2:], 2) if tok.startswith('#b') else int(tok[2:], 16)
+                    except Exception:
+                        continue
+                    pairs.append((v, z3.BitVecVal(num, v.size())))
+                    continue
                 if n in vals and z3.is_fp(v):
                     try:
                         x = smt.fp_to_float(vals[n])
